@@ -172,7 +172,36 @@ pub fn random_plan(rng: &mut Rng) -> Plan {
     }
     let mut release: Vec<u8> = (0..workers).collect();
     rng.shuffle(&mut release);
-    Plan { bursts, release }
+    // producers (only consulted when the code under test feeds the writer from several threads)
+    let mut producers = Vec::new();
+    match rng.below(4) {
+        // each producer runs to its end, in a drawn order
+        0 => {
+            for _ in 0..8 {
+                producers.push((rng.below(16) as u8, u16::MAX));
+            }
+        }
+        // fine interleaving
+        1 => {
+            for _ in 0..rng.range(50, 600) {
+                producers.push((rng.below(16) as u8, rng.range(1, 4) as u16));
+            }
+        }
+        // a few long stretches
+        2 => {
+            for _ in 0..rng.range(2, 12) {
+                producers.push((rng.below(16) as u8, rng.range(20, 500) as u16));
+            }
+        }
+        // mixed
+        _ => {
+            for _ in 0..rng.range(5, 100) {
+                let len = if rng.chance(1, 4) { rng.range(50, 400) } else { rng.range(1, 16) };
+                producers.push((rng.below(16) as u8, len as u16));
+            }
+        }
+    }
+    Plan { bursts, release, producers }
 }
 
 #[cfg(test)]
